@@ -189,6 +189,26 @@ MUTANTS = {
 """,
         "a value first placed in a deeper graph is not relaxed when met again from a shallower cousin",
     ),
+    "C1c-parent-of-a-scope-memoised": (
+        "src/spox/_build.py",
+        """            return (
+                self.scope_of[self.subgraph_owner[graph]]
+                if graph in self.subgraph_owner
+                else graph
+            )
+""",
+        """            if not hasattr(self, "_memo"):
+                self._memo = {}
+            if graph not in self._memo:
+                self._memo[graph] = (
+                    self.scope_of[self.subgraph_owner[graph]]
+                    if graph in self.subgraph_owner
+                    else graph
+                )
+            return self._memo[graph]
+""",
+        "ScopeTree.parent memoised: stale once the owner of a body is relaxed to an outer scope later (order-sensitive)",
+    ),
     "C2-tensors-kept-and-serialised-in-memory-order": (
         [
             ("src/spox/_attributes.py", "        super().__init__(value.copy(), name)\n\n    def _to_onnx_deref(self) -> AttributeProto:\n        return make_attribute(self._name, from_array(self.value))",
